@@ -75,7 +75,7 @@ REQUIRED_TAGS = ['pardim=2', 'pardim=3', 'faces', 'ofoam', 'ifem:nonempty', 'lev
                  'witness:L-corner-last', 'family:self-connected', 'rational', 'reoriented', 'orient:nonzero',
                  'interface-faces', 'names>1']
 
-ALL = ['num', 'cps', 'faces', 'ofoam', 'ifem']
+ALL = ['num', 'cps', 'faces', 'ofoam', 'ifem', 'plans']
 
 
 def _sm(sp):
@@ -235,8 +235,8 @@ def witnesses():
     out.append(boxes([(0, 0, 0), (1, 0, 0)], 3, 3, 'two-cubes-face', 'witness:face-contact', ALL))
     out.append(boxes([(0, 0, 0), (1, 1, 0)], 3, 3, 'two-cubes-edge', 'witness:edge-contact', ALL))
     out.append(boxes([(0, 0, 0), (1, 1, 1)], 3, 3, 'two-cubes-corner', 'witness:corner-contact', ALL))
-    out.append(boxes([(1, 0), (0, 1), (0, 0)], 2, 2, 'L-shape', 'witness:L-corner-last', ['num', 'cps', 'ifem']))
-    out.append(boxes([(0, 0), (1, 0), (0, 1)], 2, 2, 'L-shape', 'witness:L-corner-first', ['num', 'cps', 'ifem']))
+    out.append(boxes([(1, 0), (0, 1), (0, 0)], 2, 2, 'L-shape', 'witness:L-corner-last', ['num', 'cps', 'ifem', 'plans']))
+    out.append(boxes([(0, 0), (1, 0), (0, 1)], 2, 2, 'L-shape', 'witness:L-corner-first', ['num', 'cps', 'ifem', 'plans']))
     out.append(boxes([(0, 0, 0)], 3, 3, 'single-cube', 'witness:single-cell', ALL))
     return out
 
@@ -283,7 +283,7 @@ def gen_numbering(rng, tier):
             base = lattice_complex(rng, pardim, dim, cells, npts, orders, rational=rng.random() < 0.2,
                                    jitter=rng.random() < 0.8, family=fam + ('-shape' if fam != 'grid' else '') + '-refined')
         c = scramble(rng, base, want_linked=rng.random() < 0.55)
-        s = finish(c, ['num', 'cps', 'ifem'], level=level)
+        s = finish(c, ['num', 'cps', 'ifem', 'plans'], level=level)
         if any(p['rational'] for p in s['patches']) and c17.vertex_alias(s):
             continue        # C17 finding rational-vertex-key-ignores-weight: not this property's business
         specs.append(s)
@@ -458,7 +458,21 @@ def run_impl(sp, s):
     if 'ifem' in what:
         ifem = _call(lambda: [[c.master, c.slave, c.midx, c.sidx, c.orient] for c in sm.IFEMWriter(model).connections()])
     R['ifem'] = ifem
-    out = [len(tops), 'skip', 'skip', 'skip', 'skip', 'skip', ifem]
+    plans = 'skip'
+    if 'plans' in what:
+        # ownership of every codimension-1 section, as the real nodes have it
+        def real_plans():
+            rows = []
+            for t in tops:
+                row = []
+                for node, sec in zip(t.lower_nodes[-1], cx.sections(P, P - 1)):
+                    owned = node.owner is t
+                    ori = 'None' if owned else c17.ori_plain(sm.Orientation.compute(t.obj.section(*sec, unwrap_points=False), node.obj))
+                    row.append([owned, next(i for i, x in enumerate(tops) if x is node.owner), ori])
+                rows.append(row)
+            return [True, rows]
+        plans = _call(real_plans)
+    out = [len(tops), 'skip', 'skip', 'skip', 'skip', 'skip', ifem, plans]
     if 'num' not in what:
         return out
     e = _call(model.generate_cp_numbers)
@@ -526,8 +540,8 @@ def canonical(v):
     v = _plain(v)
     if isinstance(v, Err) or not isinstance(v, list):
         return v
-    ntops, num, cps, cells, faces, ofoam, ifem = v
-    out = {'ntops': ntops, 'num': num, 'cps': cps, 'cells': cells, 'faces': faces, 'ofoam': ofoam, 'ifem': ifem}
+    ntops, num, cps, cells, faces, ofoam, ifem, plans = v
+    out = {'ntops': ntops, 'num': num, 'cps': cps, 'cells': cells, 'faces': faces, 'ofoam': ofoam, 'ifem': ifem, 'plans': plans}
     lab = None
     if isinstance(num, list):
         lab = _relabel(num)
@@ -942,7 +956,7 @@ def tags(s, res):
         return out
     for w in s['what']:
         out.append(w)
-    names = ['ntops', 'num', 'cps', 'cells', 'faces', 'ofoam', 'ifem']
+    names = ['ntops', 'num', 'cps', 'cells', 'faces', 'ofoam', 'ifem', 'plans']
     for nm, part in zip(names, iv):
         if isinstance(part, Err):
             out.append('%s-raises:%s' % (nm, part.kind))
